@@ -416,7 +416,7 @@ def gen_nearmiss(rng):
     lit = "implicit-arithmetic"
   elif shape == 28:
     # a temporary that is an integer literal BEFORE a loop and is given a sized value at the end of the loop body, after its use: from
-    # the second iteration on the use sees the sized value (probe shape of the listed finding F-W8)
+    # the second iteration on the use sees the sized value (probe shape of the listed finding F-W14)
     ws = rng.choice([1, 1, 2, w]); wb = ws
     use = rng.choice([f"s.o @= s.a {op} t", f"s.o1 @= s.a {cmp_} t", f"s.o @= s.a {op} (t if s.c else 0)"])
     stmt = f"t = {rng.choice([0, 1])}\n      for i in range(3):\n        {use}\n        t = s.b" + ("" if ws > 1 else "[0]")
